@@ -424,6 +424,12 @@ func (m *model) inspect(db string) (first obs) {
 		if i == 1 {
 			first = o
 			m.check(o, who)
+			if o.Err != "" { // recovery-failed is reported; nothing further can be compared
+				if st != nil {
+					st.Close()
+				}
+				return first
+			}
 			m.adopt(o)
 		} else if o.String() != (obs{IDs: m.ids, Offs: m.offs, Subs: m.saved}).String() || o.Err != "" {
 			m.bad("reopen-not-idempotent", "%s sees %s, the previous opening saw ids=%v offs=%v subs=%v", who, o, m.ids, m.offs, m.saved)
